@@ -794,6 +794,17 @@ impl<'a> Rewriter<'a> {
         let by_index = kind == "iter" || kind == "iter_mut";
         let simple_pat = matches!(&c.inputs[0], syn::Pat::Ident(pi) if pi.by_ref.is_none() && pi.subpat.is_none());
         if by_index && !simple_pat { return false; }
+        // a `return` (or `?`) in the closure body leaves the closure, i.e. goes on with the next element: in a loop body it would leave the function
+        struct HasReturn(bool);
+        impl<'ast> Visit<'ast> for HasReturn {
+            fn visit_expr_return(&mut self, _: &'ast syn::ExprReturn) { self.0 = true; }
+            fn visit_expr_try(&mut self, _: &'ast syn::ExprTry) { self.0 = true; }
+            fn visit_expr_closure(&mut self, _: &'ast syn::ExprClosure) {}
+            fn visit_item(&mut self, _: &'ast syn::Item) {}
+        }
+        let mut hr = HasReturn(false);
+        hr.visit_expr(&c.body);
+        if hr.0 { return false; }
         let pat = self.text(c.inputs[0].span()).to_string();
         let recv = norm_ws(self.text(it.receiver.span()));
         let n = self.loop_no;
@@ -807,8 +818,8 @@ impl<'a> Rewriter<'a> {
         if by_index {
             let m = if kind == "iter_mut" { "mut " } else { "" };
             self.edit(ss, rs, "{ let mut fe_i__: usize = 0; while fe_i__ < ".to_string(), 0);
-            self.edit(re, bs, format!(".len()\n{}\n{{ let {} = &{}{}[fe_i__]; ", inv, pat, m, recv), 0);
-            self.edit(be, se, "; fe_i__ = fe_i__ + 1; } }".to_string(), 0);
+            self.edit(re, bs, format!(".len()\n{}\n{{ let {} = &{}{}[fe_i__]; fe_i__ = fe_i__ + 1; ", inv, pat, m, recv), 0);
+            self.edit(be, se, "; } }".to_string(), 0);
         } else if full_drain {
             self.edit(ss, rs, format!("for {} in take_all__(&mut ", pat), 0);
             self.edit(re, bs, format!(")\n{}\n{{ ", inv), 0);
@@ -1370,6 +1381,28 @@ impl<'a, 'ast> Visit<'ast> for Rewriter<'a> {
                 let inv = self.spec.loops.get(&n).cloned().unwrap_or_default();
                 if self.spec.loops.contains_key(&n) {
                     self.used_loops.push(n);
+                }
+                // R28 (for-loop form): `for p in X.iter() {` / `for p in X.iter_mut() {` with X a place expression and p a plain name -> the same
+                // index loop the `for_each` form becomes (same loop head, same invariants; the index is advanced before the body, so `continue`
+                // and `break` keep their meaning)
+                {
+                    fn is_place(e: &Expr) -> bool { match e { Expr::Path(_) => true, Expr::Field(f) => is_place(&f.base), _ => false } }
+                    if let (Expr::MethodCall(m), syn::Pat::Ident(pi)) = (&*l.expr, &*l.pat) {
+                        if (m.method == "iter" || m.method == "iter_mut") && m.args.is_empty() && is_place(&m.receiver) && pi.by_ref.is_none() && pi.subpat.is_none() {
+                            let recv = norm_ws(self.text(m.receiver.span()));
+                            self.loop_heads.pop();
+                            self.loop_heads.push(format!("foreach:iter:{}", recv));
+                            let (fs, _) = self.src.range(l.for_token.span());
+                            let (bs, _) = self.src.range(l.body.span());
+                            let (_, le) = self.src.range(l.span());
+                            let mt = if m.method == "iter_mut" { "mut " } else { "" };
+                            self.edit(fs, bs + 1, format!("{{ let mut fe_i__: usize = 0; while fe_i__ < {}.len()\n{}\n{{ let {} = &{}{}[fe_i__]; fe_i__ = fe_i__ + 1;", recv, inv, pi.ident, mt, recv), 0);
+                            self.edit(le, le, " }".to_string(), 4);
+                            self.notes.push(format!("R28 for-loop over {}.{}() rewritten as an index loop at {}:{}", recv, m.method, self.src.rel, self.src.line_of(fs)));
+                            self.visit_block(&l.body);
+                            return;
+                        }
+                    }
                 }
                 // R15: `for &(ref a, ref b) in X.iter() {` -> index loop (Verus has no ref patterns)
                 let mut fields: Vec<String> = vec![];
